@@ -2,6 +2,7 @@ import Driver.Loop
 import Driver.SdlCodec
 import PyGqlModel.SdlPrint
 import PyGqlModel.SdlText
+import PyGqlModel.SdlAstToDoc
 import PyGqlModel.SdlPrintTA
 import PyGqlModel.ParseJson
 open PyGql PyGql.Sdl PyGql.SdlPrint
@@ -38,8 +39,27 @@ def handleC12 (j : J) : J :=
     let parses := match SdlText.parseSdlTextT t, SdlText.docToAst (SdlText.printedDoc s) with
       | some a, some b => a.toJson.render == b.toJson.render
       | _, _ => false
+    -- `text_roundtrip_every_preimage` evaluated with Python's `repr(float(·))` (table `reprs`): `canon` = the printer's
+    -- `f` components are `ρ v` on every printed default; `preimage` = the document the conversion `astToDoc ρ` makes of the
+    -- PARSED tree builds what the printer's own document builds
+    let ρ := SdlText.reprOfTable ((j.arrD "reprs").filterMap fun e => match e with | .arr [.str v, .str r] => some (v, r) | _ => none)
+    let canon := SdlText.litsCanonWF ρ (SdlText.printOrder s)
+    let preimage := if !(j.boolD "wantPre" && SdlText.printTextWF o s) then true else match SdlText.parseSdlTextT t with
+      | some d => (match build (SdlText.astToDoc ρ d), build (SdlText.printedDoc s) with
+          | .ok a, .ok b => a == b
+          | .error _, .error _ => true
+          | _, _ => false)
+      | none => false
+    -- `print_schema_text_parses_nodesc` evaluated (descriptions off): the text parses to the tree of the printed document of
+    -- the schema WITHOUT its descriptions, whenever that schema satisfies `printTextWF` (descriptions on)
+    let s0 := SdlText.stripSchema s
+    let wfStrip := SdlText.printTextWF { o with descriptions := true } s0
+    let parsesStrip := if o.descriptions then true else match SdlText.parseSdlTextT t, SdlText.docToAst (SdlText.printedDoc s0) with
+      | some a, some b => a.toJson.render == b.toJson.render
+      | _, _ => false
     .obj [("text", .str (stringOfText t)), ("same", .bool (stringOfText t == first)),
-          ("wf", .bool (SdlText.printTextWF o s)), ("parses", .bool parses)]
+          ("wf", .bool (SdlText.printTextWF o s)), ("parses", .bool parses), ("canon", .bool canon), ("preimage", .bool preimage),
+          ("wfStrip", .bool wfStrip), ("parsesStrip", .bool parsesStrip), ("preEvaluated", .bool (j.boolD "wantPre"))]
   | "printTA" =>
     -- the total Text model WITH applied schema directives (`include_custom_schema_directives` truthy / whitelist), the first
     -- model on the same input, `printTextWFA`, and the statement `parse(printSchemaTA s apps) = tree of printedDocA` evaluated
